@@ -250,6 +250,11 @@ func Main(args []string) int {
 			return 2
 		}
 		return replay(args[1])
+	case "evalserver":
+		if len(args) < 2 {
+			return 2
+		}
+		return evalServer(args[1])
 	case "one":
 		// one <scenario> <seed> [k=v,...] : run a single seed with tracing
 		return one(args[1:])
@@ -548,6 +553,19 @@ func parent(prop, tier string) int {
 			fmt.Printf("KNOWN-FINDING: property=%s %s (hit %d times)\n", prop, k, n)
 		}
 	}
+	// minimise (in parallel) the first replay of each distinct violation class
+	shrunkClass := map[string]bool{}
+	for _, v := range tot.Violations {
+		if matchKnown(known, v.Violation) != nil || shrunkClass[v.Class()] || len(shrunkClass) >= 2 || v.Replay == "" {
+			continue
+		}
+		shrunkClass[v.Class()] = true
+		pb := 60 * time.Second
+		if tier == "thorough" {
+			pb = 240 * time.Second
+		}
+		parallelShrink(v.Replay, pb)
+	}
 	seenClass := map[string]bool{}
 	for _, v := range tot.Violations {
 		if kf := matchKnown(known, v.Violation); kf != nil {
@@ -772,9 +790,9 @@ func worker(args []string) int {
 			}
 			// shrink + replay file
 			fv := foundViolation{Violation: v, Scenario: p.Scenario, Seed: runSeed}
-			sb := 45 * time.Second
+			sb := 10 * time.Second
 			if tier == "thorough" {
-				sb = 180 * time.Second
+				sb = 20 * time.Second
 			}
 			fv.Replay = shrinkAndWrite(sc, p, params, prop, seed, runSeed, src, v, sb)
 			out.Violations = append(out.Violations, fv)
